@@ -645,6 +645,36 @@ func (run *Run) applyOp(gi int, op string) {
 				run.tracef("  op g%d resize-pod %s", gi, k)
 			}
 		}
+	case "pod-terminating":
+		// graceful deletion: the pods stay listed, with a deletion timestamp, until their grace period is over
+		keys := env.GroupPodKeys(gi)
+		for _, k := range keys {
+			if p := env.K.Pods[k]; p.DeletionTimestamp != nil && time.Since(p.DeletionTimestamp.Time) > 90*time.Second {
+				env.K.DeletePodObj(k)
+			}
+		}
+		keys = env.GroupPodKeys(gi)
+		var pending []string
+		for _, k := range keys {
+			if env.K.Pods[k].Status.Phase == v1.PodPending {
+				pending = append(pending, k)
+			}
+		}
+		for n := 1 + r.Intn(3); n > 0 && len(keys) > 0; n-- {
+			from := keys
+			if len(pending) > 0 && r.Intn(2) == 0 {
+				from = pending
+			}
+			k := from[r.Intn(len(from))]
+			p := env.K.Pods[k]
+			if p == nil || p.DeletionTimestamp != nil {
+				continue
+			}
+			t := metav1.NewTime(time.Now())
+			grace := int64(30)
+			p.DeletionTimestamp, p.DeletionGracePeriodSeconds = &t, &grace
+			run.tracef("  op g%d pod-terminating %s (%s)", gi, k, p.Status.Phase)
+		}
 	case "resize-nodes":
 		// the launch template changes: nodes registered from now on have another size
 		spec := &env.Groups[gi]
@@ -678,7 +708,7 @@ func (run *Run) applyOp(gi int, op string) {
 	case "refresh-fails":
 		// the next refresh fails once: escalator rebuilds its cloud provider
 		if run.nextFaults == nil {
-			run.nextFaults = &sim.FaultPlan{ByIndex: map[int]sim.FaultKind{0: pick(r, sim.FThrottle, sim.FServerErr)}}
+			run.nextFaults = &sim.FaultPlan{ByIndex: map[int]sim.FaultKind{0: pick(r, sim.FThrottle, sim.FServerErr, sim.FOmitFirst, sim.FOmitLast)}}
 			run.tracef("  op g%d refresh-fails", gi)
 		}
 	case "fleet-script":
